@@ -251,7 +251,7 @@ def run(tier, replay_file=None):
 
     # lengths and limits as 64-bit vectors (bit-blasted) up to 4 frames; as mathematical integers with the wrap-around made explicit
     # (linear arithmetic) for longer frame scripts, where bit-blasting the chained 64-bit additions does not finish
-    plan = [('bv', 4, True)] if tier == 'quick' else [('bv', 4, True), ('int', int(os.environ.get('C11_KMAX', '8')), False)]
+    plan = [('bv', 4, True)] if tier == 'quick' else [('bv', 4, True), ('int', int(os.environ.get('C11_KMAX', '12')), False)]
     incon = []
     for enc, km, wr in plan:
         incon += one_encoding(enc, km, wr)
